@@ -53,7 +53,7 @@ theorem exprs_Cap_IntersectsCell : RegionFns.Cap_IntersectsCell_exprs =
 theorem shape_Cap_intersects : RegionFns.Cap_intersects_shape =
     "if cond0⟨c.radius⟩ {return false}; if cond1⟨c.IsEmpty()⟩ {return false}; if cond2⟨cell.ContainsPoint(c.center)⟩ {return true}; sin2Angle := c.radius.Sin2(); for[k := 0] cond3⟨k⟩ [k++] {edge := cell.Edge(k).Vector; dot := val0⟨c.center; edge⟩; if cond4⟨dot⟩ {continue}; if cond5⟨dot; sin2Angle; edge⟩ {return false}; dir := val1⟨edge; c.center⟩; if cond6⟨dir; vertices[k]; vertices[(val2⟨k⟩) & 3]⟩ {return true}}; return false" := rfl
 theorem exprs_Cap_intersects : RegionFns.Cap_intersects_exprs =
-    "cond0: c.radius >= s1.RightChordAngle | cond1: c.IsEmpty() | cond2: cell.ContainsPoint(c.center) | cond3: k < 4 | val0: c.center.Dot(edge) | cond4: dot > 0 | cond5: dot*dot > sin2Angle*edge.Norm2() | val1: edge.Cross(c.center.Vector) | val2: k + 1 | cond6: dir.Dot(vertices[k].Vector) < 0 && dir.Dot(vertices[(k+1)&3].Vector) > 0" := rfl
+    "cond0: c.radius >= s1.RightChordAngle | cond1: c.IsEmpty() | cond2: cell.ContainsPoint(c.center) | cond3: k < 4 | val0: c.center.Dot(edge) | cond4: dot > 0 | cond5: dot*(dot+capEdgeDotError) > sin2Angle*edge.Norm2() | val1: edge.Cross(c.center.Vector) | val2: k + 1 | cond6: dir.Dot(vertices[k].Vector) < 0 && dir.Dot(vertices[(k+1)&3].Vector) > 0" := rfl
 theorem shape_Cap_CellUnionBound : RegionFns.Cap_CellUnionBound_shape =
     "level := val0⟨MinWidthMetric.MaxLevel(c.Radius().Radians())⟩; if cond0⟨level⟩ {cellIDs := make([]CellID, 6); for[face := 0] cond1⟨face⟩ [face++] {cellIDs[face] = val1⟨face⟩}; return cellIDs}; return cellIDFromPoint(c.center).VertexNeighbors(level)" := rfl
 theorem exprs_Cap_CellUnionBound : RegionFns.Cap_CellUnionBound_exprs =
@@ -196,7 +196,7 @@ theorem pin_Cap_intersects_val0 (c_center : V3) (edge : V3) :
 theorem pin_Cap_intersects_cond4 (dot : F64) :
     RegionFns.Cap_intersects_cond4 dot = (F64.lt (⟨0x0000000000000000⟩ : F64) dot) := rfl
 theorem pin_Cap_intersects_cond5 (dot : F64) (sin2Angle : F64) (edge : V3) :
-    RegionFns.Cap_intersects_cond5 dot sin2Angle edge = (F64.lt (F64.mul sin2Angle (V3.norm2 edge)) (F64.mul dot dot)) := rfl
+    RegionFns.Cap_intersects_cond5 dot sin2Angle edge = (F64.lt (F64.mul sin2Angle (V3.norm2 edge)) (F64.mul dot (F64.add dot (⟨0x3cf0000000000000⟩ : F64)))) := rfl
 theorem pin_Cap_intersects_val1 (edge : V3) (c_center : V3) :
     RegionFns.Cap_intersects_val1 edge c_center = (V3.cross edge c_center) := rfl
 theorem pin_Cap_intersects_val2 (k : Int) :
